@@ -7,6 +7,10 @@ def run(tier):
     for rel, q, c, tag in LG.ITEMS:
         if tag == 'C04':
             reps.append(deductive.verify_function(rel, q, c, hooks=LG.OneCellHooks(), module_env=LG.ENV, prefix='%s::%s[one-cell instance]' % (rel, q)))
+    from ..contracts import lossnd as ND
+    for rel, q, c, tag in ND.ITEMS:
+        if tag == 'C04':
+            reps.append(deductive.verify_function(rel, q, c, hooks=ND.hooks(), prefix='%s::%s[n-dimensional, L2]' % (rel, q)))
     return reps
 
 
